@@ -56,8 +56,8 @@ def build_expr(case, env):
 
 class ReduceBase(PropertyCheck):
     props_common = ['Tables.v']
-    static_targets = ['theories/Model/Exec.vo', 'theories/Model/Pinned.vo', 'theories/Lemmas/TablesL.vo']
-    coq_header = A.COQ_HEADER + 'From FuraxGen Require Import Tables.\n'
+    static_targets = ['theories/Model/Exec.vo', 'theories/Model/Pinned.vo', 'theories/Lemmas/TablesL.vo', 'theories/Lemmas/ReduceStructsL.vo']
+    coq_header = A.COQ_HEADER + 'From Furax Require Import Model.Wf Lemmas.ReduceStructsL.\nFrom FuraxGen Require Import Tables.\n'
     shard = 120
     workers = 8
     trusted_common = [
@@ -208,10 +208,16 @@ class ReduceBase(PropertyCheck):
     def model_term(self, case):
         if case.get('_unsupported') or '_term' not in case:
             return None
-        return f'observe {case["_table"]} (x_reduce gen_order {case["_term"]})'
+        # the hypotheses of reduce_structs (wfo: what the constructors guarantee; prims_okb: the two facts about
+        # leaf structures that cannot be read off a term) are evaluated on every encoded real expression
+        t = case['_term']
+        return f'((wfo {t} && prims_okb {t})%bool, observe {case["_table"]} (x_reduce gen_order {t}))'
 
     def decode(self, case, v):
-        return A.decode_observation(v)
+        wf, o = v
+        d = A.decode_observation(o)
+        d['wf'] = wf
+        return d
 
 
 def contains_cls(op, cls) -> bool:
